@@ -11,6 +11,7 @@ From Coq Require Import Lia.
 Local Open Scope nat_scope.
 
 Definition done (v : chain) : imp_state := {| is_evaluating := false; is_value := Some v |}.
+Notation failed_imp := ChainAlgebraEnv.failed_imp.
 
 (* the fuel flag is never reset *)
 Definition sticky {A} (m : M A) : Prop := forall s, oof s = true -> oof (snd (m s)) = true.
@@ -26,7 +27,7 @@ Lemma sticky_imp_loop W (rec : string -> string -> envdef -> M chain) r :
 Proof.
   intros Hrec. induction is as [|[n merge] rest IH]; intros base my s Hs; [exact Hs|].
   rewrite imp_loop_cons. destruct (alookup n (imps s)) as [i|].
-  - destruct (is_evaluating i); apply IH; exact Hs.
+  - destruct (is_evaluating i); [apply IH; exact Hs|]. destruct (is_value i); apply IH; exact Hs.
   - cbv zeta. destruct (load_of W n s) as [| |d']; try (apply IH; exact Hs).
     destruct (rec r n d' _) as [v s2] eqn:E. apply IH. unfold set_imps. cbn [imps_set snd oof].
     change s2 with (snd (v, s2)). rewrite <- E. apply Hrec. exact Hs.
@@ -48,7 +49,8 @@ Hypothesis HN : forall n d, env_of W n = Some d -> no_context_reference d.
 (* ---------------- invariants of the states met during a run ---------------- *)
 Definition I1 (s : st) : Prop := forall id, memo_get id (memo s) <> None -> alookup (fst id) (imps s) <> None.
 Definition I2 (P : string -> chain -> Prop) (s : st) : Prop :=
-  forall m i, alookup m (imps s) = Some i -> is_evaluating i = false -> exists v, is_value i = Some v /\ P m v.
+  forall m i, alookup m (imps s) = Some i -> is_evaluating i = false ->
+    (exists v, is_value i = Some v /\ P m v) \/ (env_of W m = None /\ is_value i = None).
 Definition I3 (s : st) (r : nat) : Prop :=
   forall m i, alookup m (imps s) = Some i -> is_evaluating i = true -> r <= rank m.
 
@@ -58,9 +60,12 @@ Inductive Sound : string -> chain -> Prop :=
     oof s = false -> oof (snd (eval_env W f r n d s)) = false ->
     Sound n (fst (eval_env W f r n d s)).
 
+(* a fresh table entry: a sound value, or the failure mark of a name the loader does not serve *)
+Definition new_entry (m : string) (s' : st) : Prop :=
+  (exists v, alookup m (imps s') = Some (done v) /\ Sound m v)
+  \/ (env_of W m = None /\ alookup m (imps s') = Some failed_imp).
 Definition ext (s s' : st) : Prop :=
-  (forall m, alookup m (imps s') = alookup m (imps s)
-             \/ (alookup m (imps s) = None /\ exists v, alookup m (imps s') = Some (done v) /\ Sound m v))
+  (forall m, alookup m (imps s') = alookup m (imps s) \/ (alookup m (imps s) = None /\ new_entry m s'))
   /\ (forall id, memo_get id (memo s') <> None -> memo_get id (memo s) <> None \/ alookup (fst id) (imps s) = None).
 
 Lemma ext_refl s : ext s s.
@@ -69,9 +74,10 @@ Proof. split; [intros m; now left|intros id H; now left]. Qed.
 Lemma ext_trans s s' s'' : ext s s' -> ext s' s'' -> ext s s''.
 Proof.
   intros [A1 A2] [B1 B2]. split.
-  - intros m. destruct (B1 m) as [E|(E & v & E' & Hv)].
-    + rewrite E. apply A1.
-    + right. destruct (A1 m) as [E2|(E2 & v2 & E2' & _)]; [|congruence]. split; [congruence|]. exists v. split; assumption.
+  - intros m. destruct (B1 m) as [E|(E & N)].
+    + rewrite E. destruct (A1 m) as [E2|(E2 & N2)]; [now left|right]. split; [exact E2|].
+      destruct N2 as [(v & E' & Hv)|(Hd & E')]; [left; exists v|right]; (split; [congruence|assumption]) || (split; [assumption|congruence]).
+    + right. destruct (A1 m) as [E2|(E2 & [(v2 & E2' & _)|(_ & E2')])]; try congruence. split; [congruence|exact N].
   - intros id H. destruct (B2 id H) as [H'|H'].
     + apply A2, H'.
     + right. destruct (A1 (fst id)) as [E|(E & _)]; congruence.
@@ -79,15 +85,17 @@ Qed.
 
 Lemma ext_I2 s s' : ext s s' -> I2 Sound s -> I2 Sound s'.
 Proof.
-  intros [A1 _] H m i Hm Hi. destruct (A1 m) as [E|(E & v & E' & Hv)].
+  intros [A1 _] H m i Hm Hi. destruct (A1 m) as [E|(E & [(v & E' & Hv)|(Hd & E')])].
   - apply (H m i); congruence.
-  - rewrite E' in Hm. injection Hm as <-. exists v. split; [reflexivity|exact Hv].
+  - rewrite E' in Hm. injection Hm as <-. left. exists v. split; [reflexivity|exact Hv].
+  - rewrite E' in Hm. injection Hm as <-. right. split; [exact Hd|reflexivity].
 Qed.
 
 Lemma ext_I3 s s' r : ext s s' -> I3 s r -> I3 s' r.
 Proof.
-  intros [A1 _] H m i Hm Hi. destruct (A1 m) as [E|(E & v & E' & _)].
+  intros [A1 _] H m i Hm Hi. destruct (A1 m) as [E|(E & [(v & E' & _)|(_ & E')])].
   - apply (H m i); congruence.
+  - rewrite E' in Hm. injection Hm as <-. discriminate.
   - rewrite E' in Hm. injection Hm as <-. discriminate.
 Qed.
 
@@ -129,13 +137,12 @@ Qed.
 (* ---------------- the unary run lemma ---------------- *)
 Definition env_post (name : string) (s s' : st) : Prop :=
   (forall m, m <> name ->
-     alookup m (imps s') = alookup m (imps s)
-     \/ (alookup m (imps s) = None /\ exists v, alookup m (imps s') = Some (done v) /\ Sound m v))
+     alookup m (imps s') = alookup m (imps s) \/ (alookup m (imps s) = None /\ new_entry m s'))
   /\ alookup name (imps s') = Some {| is_evaluating := false; is_value := None |}
   /\ (forall id, memo_get id (memo s') <> None -> memo_get id (memo s) <> None \/ alookup (fst id) (imps s) = None)
   /\ I1 s'.
 
-Definition root_of (root name : string) : string := if String.eqb root "" then name else root.
+Definition root_of (root name : string) : string := if String.eqb root "" || String.eqb root "<yaml>" then name else root.
 
 Definition env_spec (f : nat) : Prop :=
   forall r n d s,
@@ -173,9 +180,11 @@ Proof.
     rewrite imp_loop_cons in *. destruct (alookup n (imps s)) as [i|] eqn:En.
     + destruct (is_evaluating i) eqn:Ev.
       * exfalso. pose proof (H3 n i En Ev). lia.
-      * destruct (H2 n i En Ev) as (v & Hv & Sv). rewrite Hv in *. cbv zeta in *.
-        destruct (IH _ _ s Hr' H1 H2 H3 Ho Hfin) as (b' & m' & E & LV & X & Y).
-        exists b', m'. split; [exact E|]. split; [now apply LV_use with (v := v)|]. split; assumption.
+      * destruct (H2 n i En Ev) as [(v & Hv & Sv)|(Hd & Hv)]; rewrite Hv in *.
+        -- destruct (IH _ _ s Hr' H1 H2 H3 Ho Hfin) as (b' & m' & E & LV & X & Y).
+           exists b', m'. split; [exact E|]. split; [now apply LV_use with (v := v)|]. split; assumption.
+        -- destruct (IH _ _ s Hr' H1 H2 H3 Ho Hfin) as (b' & m' & E & LV & X & Y).
+           exists b', m'. split; [exact E|]. split; [now apply LV_skip|]. split; assumption.
     + cbv zeta in *. set (s1 := snd (emit (EvLoad n) (snd (call W s)))) in *.
       assert (T1 : same_tables s s1) by (split; reflexivity).
       assert (O1 : oof s1 = false) by exact Ho.
@@ -196,11 +205,12 @@ Proof.
         assert (X3 : ext s s3).
         { split.
           - intros m. destruct (String.eqb m n) eqn:Emn.
-            + apply String.eqb_eq in Emn. subst m. right. split; [exact En|]. exists v. split; [apply set_imps_lookup|exact Sv].
+            + apply String.eqb_eq in Emn. subst m. right. split; [exact En|]. left. exists v. split; [apply set_imps_lookup|exact Sv].
             + assert (Hne : m <> n) by now apply String.eqb_neq.
               assert (L3 : alookup m (imps s3) = alookup m (imps s2)).
               { unfold s3, set_imps, imps_set. cbn [snd imps alookup]. now rewrite Emn. }
-              rewrite L3. exact (Q1 m Hne).
+              rewrite L3. destruct (Q1 m Hne) as [Q|(Q & N)]; [left; exact Q|right; split; [exact Q|]].
+              unfold new_entry in *. rewrite L3. exact N.
           - intros id Hin. exact (Q3 id Hin). }
         assert (Y3 : I1 s3).
         { intros id Hin. unfold s3, set_imps, imps_set. cbn [snd imps alookup].
@@ -208,16 +218,22 @@ Proof.
         destruct (IH (if merge then v ++ base else base) (ainsert n v my) s3 Hr' Y3 (ext_I2 _ _ X3 H2) (ext_I3 _ _ _ X3 H3) O2 Hfin)
           as (b' & m' & E & LV & X & Y).
         exists b', m'. split; [exact E|]. split; [now apply LV_use with (v := v)|]. split; [exact (ext_trans _ _ _ X3 X)|exact Y].
-      * assert (T2 : same_tables s (snd (err s1))) by (split; reflexivity).
+      * set (sf := set_imps n failed_imp (snd (err s1))) in *.
+        assert (X2 : ext s sf).
+        { split; [|intros id Hin; left; exact Hin]. intros m. destruct (String.eqb m n) eqn:Emn.
+          - apply String.eqb_eq in Emn. subst m. right. split; [exact En|]. right. split; [exact Ed|apply set_imps_lookup].
+          - left. unfold sf, set_imps, imps_set. cbn [snd imps alookup]. now rewrite Emn. }
+        assert (Y2 : I1 sf).
+        { intros id Hin. unfold sf, set_imps, imps_set. cbn [snd imps alookup].
+          destruct (String.eqb (fst id) n); [discriminate|]. exact (H1 id Hin). }
         assert (Hskip : exists b' m',
-                  fst (imp_loop W (eval_env W f) r' rest base my (snd (err s1))) = (b', m') /\ LoopVals ((n, merge) :: rest) base my b' m'
-                  /\ ext s (snd (imp_loop W (eval_env W f) r' rest base my (snd (err s1))))
-                  /\ I1 (snd (imp_loop W (eval_env W f) r' rest base my (snd (err s1))))).
-        { assert (Hfin' : oof (snd (imp_loop W (eval_env W f) r' rest base my (snd (err s1)))) = false)
+                  fst (imp_loop W (eval_env W f) r' rest base my sf) = (b', m') /\ LoopVals ((n, merge) :: rest) base my b' m'
+                  /\ ext s (snd (imp_loop W (eval_env W f) r' rest base my sf))
+                  /\ I1 (snd (imp_loop W (eval_env W f) r' rest base my sf))).
+        { assert (Hfin' : oof (snd (imp_loop W (eval_env W f) r' rest base my sf)) = false)
             by (destruct (alookup n (w_envs W)) as [[| |?]|]; exact Hfin).
-          destruct (IH base my (snd (err s1)) Hr' (same_tables_I1 _ _ T2 H1) (ext_I2 _ _ (same_tables_ext _ _ T2) H2)
-                       (ext_I3 _ _ _ (same_tables_ext _ _ T2) H3) Ho Hfin') as (b' & m' & E & LV & X & Y).
-          exists b', m'. split; [exact E|]. split; [now apply LV_skip|]. split; [exact (ext_trans _ _ _ (same_tables_ext _ _ T2) X)|exact Y]. }
+          destruct (IH base my sf Hr' Y2 (ext_I2 _ _ X2 H2) (ext_I3 _ _ _ X2 H3) Ho Hfin') as (b' & m' & E & LV & X & Y).
+          exists b', m'. split; [exact E|]. split; [now apply LV_skip|]. split; [exact (ext_trans _ _ _ X2 X)|exact Y]. }
         destruct (alookup n (w_envs W)) as [[| |?]|]; exact Hskip.
 Qed.
 
@@ -284,9 +300,9 @@ Proof.
     { intros m Hm. cbn [sb imps alookup]. apply String.eqb_neq in Hm. now rewrite Hm. }
     split.
     + unfold env_post. split; [|split; [|split]].
-      * intros m Hm. rewrite Fi, (Lb m Hm). destruct (XL1 m) as [Em|(Em & v & Ev & Sv)].
+      * intros m Hm. rewrite Fi, (Lb m Hm). destruct (XL1 m) as [Em|(Em & N)].
         -- left. rewrite Em. now apply L0.
-        -- right. rewrite (L0 m Hm) in Em. split; [exact Em|]. exists v. split; assumption.
+        -- right. rewrite (L0 m Hm) in Em. split; [exact Em|]. unfold new_entry in *. rewrite Fi, (Lb m Hm). exact N.
       * rewrite Fi. cbn [sb imps alookup]. now rewrite String.eqb_refl.
       * intros id Hin. destruct (String.eqb (fst id) name) eqn:Eid.
         -- apply String.eqb_eq in Eid. right. now rewrite Eid.
@@ -359,13 +375,14 @@ Qed.
 Lemma table_sound (fuel : nat) (root R : string) (dR : envdef) (X : string) (i : imp_state) :
   env_of W R = Some dR -> X <> R -> oof (snd (eval_env W fuel root R dR st0)) = false ->
   alookup X (imps (snd (eval_env W fuel root R dR st0))) = Some i ->
-  exists v, i = done v /\ Sound X v.
+  (exists v, i = done v /\ Sound X v) \/ (env_of W X = None /\ i = failed_imp).
 Proof.
   intros Hd Hne Ho Hi. destruct inv_st0 as (A1 & A2 & A3).
   destruct (env_sound fuel root R dR st0 Hd eq_refl A1 A2 (A3 _) eq_refl Ho) as ((Q1 & _) & _).
-  destruct (Q1 X Hne) as [Q|(_ & v & Q & Sv)].
+  destruct (Q1 X Hne) as [Q|(_ & [(v & Q & Sv)|(Hx & Q)])].
   - rewrite Q in Hi. discriminate.
-  - rewrite Q in Hi. injection Hi as <-. exists v. split; [reflexivity|exact Sv].
+  - rewrite Q in Hi. injection Hi as <-. left. exists v. split; [reflexivity|exact Sv].
+  - rewrite Q in Hi. injection Hi as <-. right. split; [exact Hx|reflexivity].
 Qed.
 
 Theorem imported_same_everywhere (fuel fuel' : nat) (root root' R X : string) (dR dX : envdef) (i : imp_state) :
@@ -375,7 +392,7 @@ Theorem imported_same_everywhere (fuel fuel' : nat) (root root' R X : string) (d
   is_value i = Some (fst (eval_env W fuel' root' X dX st0)).
 Proof.
   intros HdR HdX Hne Ho Ho' Hi.
-  destruct (table_sound fuel root R dR X i HdR Hne Ho Hi) as (v & -> & Sv).
+  destruct (table_sound fuel root R dR X i HdR Hne Ho Hi) as [(v & -> & Sv)|(Hx & _)]; [|congruence].
   cbn [done is_value]. f_equal. apply (Sound_unique X); [exact Sv|now apply standalone_sound].
 Qed.
 
